@@ -298,17 +298,23 @@ def specMalformed (expect : Option (List Blob × Nat)) (got : Res (List Blob × 
   | .err _, some _ => false
   | .err _, none => true
 
-/-- can this sequence of `Add`s be represented in a pack header at all? (types data/tree, 32-bit
-lengths, non-empty, header within `MaxHeaderSize`) -/
-def representable (adds : List (Nat × Bytes × Nat × Nat)) : Bool :=
-  !adds.isEmpty &&
-  adds.all (fun a => (a.1 == restic_DataBlob || a.1 == restic_TreeBlob) && a.2.1.length == restic_idSize &&
-    decide (a.2.2.1 < 4294967296) && decide (a.2.2.2 < 4294967296)) &&
-  decide (calculateHeaderSize (expectedListing 0 adds) ≤ pack_MaxHeaderSize)
+/-- offsets are the running sum of the stored lengths (what `Add` maintains) -/
+def offsetsOK : Nat → List Blob → Bool
+  | _, [] => true
+  | pos, b :: bs => b.offset == pos && offsetsOK (pos + b.length) bs
+
+/-- can this blob list be represented in a pack header at all? (non-empty, types data/tree,
+32-byte ids, 32-bit lengths, cumulative offsets, header within `MaxHeaderSize`) -/
+def representable (bs : List Blob) : Bool :=
+  !bs.isEmpty &&
+  bs.all (fun b => (b.type == restic_DataBlob || b.type == restic_TreeBlob) && b.id.length == restic_idSize &&
+    decide (b.length < 4294967296) && decide (b.ulen < 4294967296)) &&
+  offsetsOK 0 bs &&
+  decide (calculateHeaderSize bs ≤ pack_MaxHeaderSize)
 
 /-- C06 for `Finalize`: a packer whose blobs cannot be represented must not produce a pack
-(`finOk` = Finalize returned nil); a representable one must succeed. -/
-def specFinalize (adds : List (Nat × Bytes × Nat × Nat)) (finOk : Bool) : Bool :=
-  finOk == representable adds
+(`finOk` = Finalize returned nil); a representable one must be finalized. -/
+def specFinalize (bs : List Blob) (finOk : Bool) : Bool :=
+  finOk == representable bs
 
 end Restic.Model.Pack
